@@ -210,6 +210,8 @@ pub fn run(args: &[String], out: &mut dyn Write) -> i32 {
         let mut keep = false;
         let mut dirs: Vec<String> = Vec::new();
         let mut files: Vec<(String, Vec<u8>)> = Vec::new();
+        // symbolic links (real file system only): `l:<link path>=<target as written in the link>`
+        let mut links: Vec<(String, String)> = Vec::new();
         for w in &ws[1..] {
             if let Some(v) = w.strip_prefix("root=") {
                 root = sx::dec(v).unwrap_or_default();
@@ -223,6 +225,10 @@ pub fn run(args: &[String], out: &mut dyn Write) -> i32 {
                 keep = true;
             } else if let Some(v) = w.strip_prefix("d:") {
                 dirs.push(sx::dec(v).unwrap_or_default());
+            } else if let Some(v) = w.strip_prefix("l:") {
+                if let Some((l, t)) = v.split_once('=') {
+                    links.push((sx::dec(l).unwrap_or_default(), sx::dec(t).unwrap_or_default()));
+                }
             } else if let Some((k, v)) = w.split_once('=') {
                 files.push((sx::dec(k).unwrap_or_default(), sx::dec_bytes(v).unwrap_or_default()));
             }
@@ -235,7 +241,7 @@ pub fn run(args: &[String], out: &mut dyn Write) -> i32 {
             }
         };
         let inside = |p: &str| Path::new(p).starts_with(&cdir) && !p.contains("/../") && !p.ends_with("/..");
-        if !files.iter().all(|(p, _)| inside(p)) || !dirs.iter().all(|d| inside(d)) || whole.as_ref().map_or(false, |(p, _)| !inside(p)) {
+        if !files.iter().all(|(p, _)| inside(p)) || !dirs.iter().all(|d| inside(d)) || !links.iter().all(|(l, _)| inside(l)) || whole.as_ref().map_or(false, |(p, _)| !inside(p)) {
             writeln!(out, "{} bad-case path outside the case directory", id).unwrap();
             continue;
         }
@@ -256,6 +262,13 @@ pub fn run(args: &[String], out: &mut dyn Write) -> i32 {
                 std::fs::create_dir_all(parent).unwrap();
             }
             std::fs::write(p, t).unwrap();
+        }
+        for (l, t) in &links {
+            if let Some(parent) = Path::new(l).parent() {
+                std::fs::create_dir_all(parent).unwrap();
+            }
+            #[cfg(unix)]
+            std::os::unix::fs::symlink(t, l).unwrap();
         }
         let files_sx: Vec<String> = files.iter().map(|(p, c)| format!("({} {})", enc(p), parse_file(c))).collect();
         let (fake, gfake) = run_load(&root, fake_fs(&files));
